@@ -150,6 +150,29 @@ pub fn run(ctx: &mut Ctx) {
         rep.distinct(&src, true);
     });
 
+    // ---- every known name as a match pattern: type names with and without a pattern form, functions, macros, keywords ----
+    let mut pat_names: Vec<&'static str> = names.clone();
+    pat_names.extend(["dyn", "type", "null_type", "null", "true", "false", "_", "list", "map", "object", "float", "double", "in", "match", "case"]);
+    let npat = pat_names.len() as u64;
+    ctx.stage("match-patterns", npat * 6, false, |idx, _rng, rep| {
+        let name = pat_names[(idx / 6) as usize];
+        let src = match idx % 6 {
+            0 => format!("match x {{ case {}: 1, case _: 2 }}", name),
+            1 => format!("match x {{ case == {}: 1, case _: 2 }}", name),
+            2 => format!("match x {{ case < {}: 1 }}", name),
+            3 => format!("[1, 2].map(e, match e {{ case {}: 0, case _: e }})", name),
+            4 => format!("match {} {{ case {}: 1, case _: 2 }}", name, name),
+            _ => format!("match x {{ case {}: match y {{ case {}: 1 }}, case _: 2 }}", name, name),
+        };
+        for x in &small {
+            let binds = vec![("x".to_string(), x.clone()), ("y".to_string(), x.clone())];
+            let out = mon::run1(&src, &binds);
+            check_total(rep, "match-patterns", &src, &binds, &out);
+        }
+        rep.count("match_pattern_programs");
+        rep.distinct(&src, true);
+    });
+
     // ---- built-in sweep, literal form (the compiler executes the call) --------------------
     let spelled: Vec<(String, CelValue)> = full
         .iter()
